@@ -240,13 +240,21 @@ func read[EntityT entity.Interface](def Definition, wrapper func(e *Entity) Enti
 		}
 	}
 
-	return wrapper(&Entity{
+	e := wrapper(&Entity{
 		Definition: def,
 		ops:        ops,
 		lastCommit: rootHash,
 		createTime: createTime,
 		editTime:   editTime,
-	}), nil
+	})
+
+	// Data at rest is not more trustworthy than data coming from a remote: an entity without
+	// operation or with an invalid operation can't be interpreted safely by the upper layers.
+	if err := e.Validate(); err != nil {
+		return *new(EntityT), errors.Wrapf(err, "invalid %s data", def.Typename)
+	}
+
+	return e, nil
 }
 
 // topologicalOrder re-orders a set of commits, closed over the parent relation and given in discovery
